@@ -68,7 +68,7 @@ func (u *Unit) varargs(p *Path, sl *Term, elemSort string) []*Term {
 	arr := Select(cells, enc.Sel("sl_arr", sl))
 	var out []*Term
 	for j := 0; j < k; j++ {
-		out = append(out, Select(arr, Add(enc.Sel("sl_off", sl), IntLit(int64(j)))))
+		out = append(out, Select(arr, IntLit(int64(j))))
 	}
 	return out
 }
@@ -278,7 +278,7 @@ func (u *Unit) sortStrings(p *Path, sl *Term) {
 	enc := u.v.enc
 	c := enc.cellsComp(SStr)
 	cells := p.st.Get(u.cx, c.Name)
-	arr, off, n := enc.Sel("sl_arr", sl), enc.Sel("sl_off", sl), enc.Sel("sl_len", sl)
+	arr, off, n := enc.Sel("sl_arr", sl), IntLit(0), enc.Sel("sl_len", sl)
 	old := Select(cells, arr)
 	na := u.cx.Fresh("sorted", ArrSort(SInt, SStr))
 	perm := u.cx.Fresh("perm", ArrSort(SInt, SInt))
